@@ -19,6 +19,9 @@ pub enum Path {
     New,
     Builder,
     BuilderRaw,
+    /// `MetablockBuilder::from_raw_metadata` over a document as another implementation writes it: pretty-printed,
+    /// optional null members absent, expiry spelled with a numeric UTC offset
+    BuilderRawForeign,
 }
 
 #[derive(Clone, Copy, Debug, Serialize, Deserialize, PartialEq, Eq)]
@@ -57,7 +60,7 @@ impl Property for C09 {
     }
     fn rule() -> String {
         "Generated: layouts/links with Unicode text in every string field (same generator as C11), 1-3 signers over all key types and \
-         schemes, construction path in {Metablock::new, MetablockBuilder::from_metadata().sign().build(), from_raw_metadata}, wire form in \
+         schemes, construction path in {Metablock::new, MetablockBuilder::from_metadata().sign().build(), from_raw_metadata over the library's own serialisation, from_raw_metadata over a foreign spelling of the document (pretty-printed, null environment absent, expiry with +00:00)}, wire form in \
          {serde_json compact, pretty, Json::to_writer, JsonPretty::to_writer}. (one case in eleven: the two signers are one RSA key pair under both of its schemes). Oracle: parse(wire).verify(n, signers) = Ok; verify(1,[unrelated \
          key]) = Err; for sampled single-bit flips of each signature value both PublicKey::verify and block verify = Err; the same key \
          material declared with another scheme (RSA pss-sha256<->pss-sha512, Ed25519 bytes declared as ECDSA) rejects the signature. \
@@ -77,7 +80,7 @@ impl Property for C09 {
             prop_oneof![6 => distinct_keys(1, 3, true), 4 => distinct_keys(1, 2, false),
                 // one RSA key pair used under both of its signature schemes: two signers, two key ids
                 1 => (0..RSA_POOL.len(), any::<bool>()).prop_map(|(idx, first512)| vec![KeySpec::Rsa { idx, sha512: first512 }, KeySpec::Rsa { idx, sha512: !first512 }])],
-            prop_oneof![Just(Path::New), Just(Path::Builder), Just(Path::BuilderRaw)],
+            prop_oneof![Just(Path::New), Just(Path::Builder), Just(Path::BuilderRaw), Just(Path::BuilderRawForeign)],
             prop_oneof![Just(Wire::Compact), Just(Wire::Pretty), Just(Wire::JsonWriter), Just(Wire::JsonPrettyWriter)],
             proptest::collection::vec(any::<u16>(), 1..=nflips),
             100u8..120,
@@ -113,6 +116,31 @@ impl Property for C09 {
                     Ok(b) => b.sign(&refs).map(|b| b.build()),
                     Err(e) => {
                         o.fail("C09/from_raw_metadata/rejects-own-serialisation", format!("{}", e), "a builder");
+                        return o;
+                    }
+                }
+            }
+            Path::BuilderRawForeign => {
+                let mut d = match &spec.doc {
+                    Doc::Link(l) => l.to_wire(),
+                    Doc::Layout(l) => l.to_wire(),
+                };
+                if let Some(m) = d.as_object_mut() {
+                    if m.get("environment") == Some(&serde_json::Value::Null) {
+                        m.remove("environment");
+                    }
+                    if let Some(e) = m.get("expires").and_then(|e| e.as_str()).map(|e| e.to_string()) {
+                        if e.ends_with('Z') {
+                            m.insert("expires".into(), serde_json::json!(format!("{}+00:00", e.trim_end_matches('Z'))));
+                        }
+                    }
+                }
+                let raw = serde_json::to_vec_pretty(&d).expect("ser");
+                match MetablockBuilder::from_raw_metadata(&raw) {
+                    Ok(b) => b.sign(&refs).map(|b| b.build()),
+                    Err(_) => {
+                        // whether such a document parses is C16/C17's business
+                        o.class("foreign-raw-document-rejected");
                         return o;
                     }
                 }
